@@ -56,3 +56,48 @@ def register(reg):
         replay={'call': 'photutils.isophote.geometry:EllipseGeometry.to_polar',
                 'self': 'EllipseGeometry', 'approx': True, 'args': ['x', 'y']},
     ))
+    register_sma(reg)
+
+
+def register_sma(reg):
+    """C20 "a list sorted by strictly increasing semi-major axis": the two functions fit_image
+    steps the semi-major axis with.  Going outwards (step > 0) the next sma is strictly larger;
+    reset_sma returns the first inward sma and the inward step, such that stepping the *original*
+    sma with the inward step gives exactly that sma, which is strictly smaller (and positive in
+    geometric mode, where the inward step lies in (-1, 0) so every later inward sma stays
+    positive and strictly decreasing)."""
+    for tag, lin in (('linear', True), ('geometric', False)):
+        reg.record('EllipseGeometry@' + tag, {'sma': 'posreal', 'linear_growth': ('const', lin)})
+        nxt = 'self.sma + step' if lin else 'self.sma * (1 + step)'
+        reg.add(Contract(
+            target=f'{G}.update_sma', props=['C20'], kind='method', tag=tag,
+            params={'self': 'EllipseGeometry@' + tag, 'step': 'real'},
+            ensures=[('formula', f'result == {nxt}'),
+                     ('strictly-outwards-for-a-positive-step', 'implies(step > 0, result > self.sma)'),
+                     ('strictly-inwards-for-a-negative-step', 'implies(step < 0, result < self.sma)')]
+            + ([] if lin else [('stays-positive-for-steps-above-minus-one',
+                                'implies(step > -1, result > 0)')]),
+            replay={'call': 'photutils.isophote.geometry:EllipseGeometry.update_sma',
+                    'self': 'EllipseGeometry@' + tag, 'approx': True, 'args': ['step']},
+            returns='real',
+            mutants=[('sma = self.sma + step', 'sma = self.sma - step')] if lin else
+                    [('sma = self.sma * (1.0 + step)', 'sma = self.sma * (1.0 - step)'),
+                     ('sma = self.sma * (1.0 + step)', 'sma = self.sma * step')],
+        ))
+        reg.add(Contract(
+            target=f'{G}.reset_sma', props=['C20'], kind='method', tag=tag,
+            params={'self': 'EllipseGeometry@' + tag, 'step': 'posreal'},
+            ensures=[('first-inward-sma-is-strictly-smaller', 'result[0] < self.sma'),
+                     ('inward-step-is-negative', 'result[1] < 0'),
+                     ('stepping-the-original-sma-inwards-gives-it',
+                      f'result[0] == {nxt.replace("step", "result[1]")}'),
+                     ('undoes-one-outward-step',
+                      f'{nxt.replace("self.sma", "result[0]")} == self.sma')]
+            + ([] if lin else [('geometric-inward-step-above-minus-one-and-sma-positive',
+                                'result[1] > -1 and result[0] > 0')]),
+            replay={'call': 'photutils.isophote.geometry:EllipseGeometry.reset_sma',
+                    'self': 'EllipseGeometry@' + tag, 'approx': True, 'args': ['step']},
+            mutants=[('step = -step', 'step = step')] if lin else
+                    [('step = aux - 1.0', 'step = 1.0 - aux'),
+                     ('aux = 1.0 / (1.0 + step)', 'aux = 1.0 / (1.0 - step)')],
+        ))
